@@ -199,6 +199,39 @@ func c10RoundTrip(c *vf.Ctx) {
 			} else if df := msgDiff(&m, &reused); df != "" {
 				c.Fail(sub, i, "cbor-roundtrip-differs:into-a-used-message:"+df, "", wit())
 			}
+			// the decoded message owns its bytes: the buffer it was read from (a pubsub message's data, a pooled
+			// request buffer) is overwritten and used again afterwards
+			{
+				var db message.Message
+				bb := bytes.NewBuffer(append(make([]byte, 0, len(enc)+64), enc...))
+				if err := db.UnmarshalCBOR(bb); err != nil {
+					c.Fail(sub, i, "cbor-roundtrip-error:from-a-buffer", err.Error(), wit())
+				} else {
+					raw := bb.Bytes()[:0]
+					raw = raw[:cap(raw)]
+					for x := range raw {
+						raw[x] ^= 0xa5
+					}
+					bb.Reset()
+					bb.Write(bytes.Repeat([]byte{0x5a}, len(enc)))
+					if df := msgDiff(&m, &db); df != "" {
+						c.Fail(sub, i, "decoded-message-shares-memory-with-its-input:"+df, "the message changed when the buffer it was decoded from was overwritten", wit())
+					}
+					c.Inc("decoded_from_a_buffer_that_is_then_overwritten")
+				}
+				var dj2 message.Message
+				if js2, err := json.Marshal(m); err == nil {
+					cp := append([]byte(nil), js2...)
+					if err := json.Unmarshal(cp, &dj2); err == nil && msgDiff(&m, &dj2) == "" {
+						for x := range cp {
+							cp[x] = 'x'
+						}
+						if df := msgDiff(&m, &dj2); df != "" {
+							c.Fail(sub, i, "decoded-message-shares-memory-with-its-input:json:"+df, "", wit())
+						}
+					}
+				}
+			}
 			// the same bytes arriving in pieces (as they do from a network) decode to the same message
 			for rk, rd := range map[string]io.Reader{"half": iotest.HalfReader(bytes.NewReader(enc)), "onebyte": iotest.OneByteReader(bytes.NewReader(enc)), "datared": iotest.DataErrReader(bytes.NewReader(enc))} {
 				var dp message.Message
